@@ -23,6 +23,11 @@ second and a third call of bisect (new targets in a new tensor, in the caller's 
 tensor again) -- every such call goes to the model ops "bisect" (Rat and Float carrier) / "bisect_fp" with the bracket as the caller
 created it, and is judged by the same root predicate; likewise find_implied_volatility with the caller's own (per-element) bracket
 tensors and the modules' implied_volatility with the same state / price tensors (predicate only).
+Implied-volatility BATCHES with elements exactly at the money (log_moneyness == 0.0) next to elements off the money ("<kind>+atm": vanilla call / put and
+lookback at + above + below the strike, American binary at + below the barrier, European binary call / put at + above the strike -- the side on which the
+price moves with the volatility as it does at the money, so that the batch has ONE direction for bisect's `.all()` test): fixed corpus for every seed and
+random members, in the vector / reused-tensor round trips and in the resolution class (reachable and unreachable precisions, float32 / float64);
+find_implied_volatility(max_iter) on module prices with an at-the-money element.  Same element-wise predicates.
 """
 import math
 from fractions import Fraction as F
@@ -526,10 +531,40 @@ def check(ctx):
     # ---------------- the modules' implied_volatility called again with the SAME tensor objects: the state tensors (full shape, several
     # elements) serve two or three calls; the price tensor of a later call is a new tensor, the caller's previous one refilled in place
     # by the caller with the prices of new volatilities, or the very same tensor again.  Same predicate as above, element-wise.
-    for _ in range(70 if ctx.tier == "quick" else 700):
-        which = g.choice(["european", "european_put", "lookback", "binary", "american_binary"] + BINARY_KINDS)
+    # BATCHES that contain elements EXACTLY at the money (log_moneyness == 0.0) next to elements off the money ("<kind>+atm"), for every module kind whose
+    # batch the bisection can search in ONE direction (its direction test is one `.all()` over the batch): vanilla calls / puts and lookbacks (price rises
+    # with the volatility everywhere: at, above and below the strike in one batch), American binary (at / below the barrier), and the European binary on the
+    # side of the strike where it moves like at the money -- N(d2), d2 = s/w - w/2, falls in w for every s >= 0 (s = 0: N(-w/2)), so a call batch with
+    # s >= 0 falls and a put batch with s >= 0 rises throughout.  (A European binary batch with s < 0 AND s >= 0 elements has no common direction: the code as
+    # it is does not search it, and it is not generated.)  Every element is monotone in volatility, so the element-wise predicate above applies unchanged.
+    # A fixed corpus first (every seed), then the kinds take part in the random choice.
+    MIXED_ATM = {"european+atm": "european", "european_put+atm": "european_put", "lookback+atm": "lookback", "american_binary+atm": "american_binary",
+                 "binary_itm+atm": "binary_itm", "binary_put_otm+atm": "binary_put_otm"}
+
+    def atm_roles(gg, label, n_):
+        """which elements of a "+atm" batch are exactly at the money / strictly above / strictly below the strike (the rest: as the kind draws them)"""
+        zi = gg.randint(0, n_ - 1)
+        roles = {zi: "atm", (zi + 1) % n_: "below" if label == "american_binary+atm" else "above"}
+        if n_ >= 3 and label in ("european+atm", "european_put+atm", "lookback+atm"):
+            roles[(zi + 2) % n_] = "below"
+        if n_ >= 4 and gg.chance(0.5):
+            roles[(zi + 3) % n_] = "atm"
+        return roles
+
+    def atm_value(gg, role, s):
+        return 0.0 if role == "atm" else gg.r.uniform(0.005, 0.3) if role == "above" else -gg.r.uniform(0.005, 0.3) if role == "below" else s
+    iv_vec_corpus = [(w_, n__) for w_ in MIXED_ATM for n__ in (2, 4)]
+    for it_ in range(len(iv_vec_corpus) + (70 if ctx.tier == "quick" else 700)):
+        label = g.choice(["european", "european_put", "lookback", "binary", "american_binary"] + BINARY_KINDS + list(MIXED_ATM))
         k = g.choice([0.5, 1.0, 2.0])
         n_ = g.small((1, 2, 3, 4))
+        if it_ < len(iv_vec_corpus):
+            label, n_ = iv_vec_corpus[it_]
+        which = MIXED_ATM.get(label, label)          # the module kind; `label` names the input class (tags, failure keys)
+        roles = {}
+        if label in MIXED_ATM:
+            n_ = max(n_, 2)
+            roles = atm_roles(g, label, n_)
         dt = torch.float64
         ss, ts, ms = [], [], []
         for _i in range(n_):
@@ -544,6 +579,7 @@ def check(ctx):
                 s = 0.0
             else:
                 s = g.r.uniform(-0.3, 0.3)
+            s = atm_value(g, roles.get(_i), s)
             ss.append(s)
             ts.append(t)
             ms.append(s if which == "american_binary" else max(s, 0.0) + g.choice([0.0, 0.1]))
@@ -563,7 +599,7 @@ def check(ctx):
             mode = "new" if rnd == 0 else g.weighted([("refilled", 3), ("new", 2), ("same", 1)])
             if mode != "same":
                 sigs = [g.r.uniform(0.02, 0.95) for _i in range(n_)]
-            case = {"which": which, "s": ss, "t": ts, "sigma": sigs, "k": k, "precision": prec, "call_with_the_same_state_tensors": rnd + 1,
+            case = {"which": label, "s": ss, "t": ts, "sigma": sigs, "k": k, "precision": prec, "call_with_the_same_state_tensors": rnd + 1,
                     "price_tensor": mode}
             if which in ("lookback", "american_binary"):
                 case["max_log_moneyness"] = ms
@@ -577,16 +613,16 @@ def check(ctx):
                 st, iv, mut = call_impl(m.implied_volatility, *state, P, precision=prec)
             if st != "ok":
                 ctx.fail("implied_volatility raised for a price generated by the same module", case,
-                         key=f"implied_volatility:{which}{sfx}:error", detail=pnew if isinstance(pnew, str) else iv)
+                         key=f"implied_volatility:{label}{sfx}:error", detail=pnew if isinstance(pnew, str) else iv)
                 break
-            ctx.case(case, True, tag="iv_" + which + ("_reused_tensors" if rnd else "_vector"))
+            ctx.case(case, True, tag="iv_" + label + ("_reused_tensors" if rnd else "_vector"))
             ctx.stats[f"iv_reused_tensors:price_tensor={mode}"] += 1
             ctx.traces += 1
             if mut:
-                ctx.mutated(f"implied_volatility:{which}", mut, case)
+                ctx.mutated(f"implied_volatility:{label}", mut, case)
             if tuple(iv.shape) != (n_,):
                 ctx.fail("implied_volatility returned a tensor of another shape than the price", case,
-                         key=f"implied_volatility:{which}{sfx}:error", detail=list(iv.shape))
+                         key=f"implied_volatility:{label}{sfx}:error", detail=list(iv.shape))
                 break
             far = (iv - torch.tensor(sigs, dtype=dt)).abs() > 2 * prec
             if bool(far.any()):
@@ -597,7 +633,7 @@ def check(ctx):
                     i = int(bad.nonzero()[0])
                     ctx.fail("implied volatility does not reproduce the generating volatility to the requested precision"
                              + (" when the state / price tensors of an earlier call are used again" if rnd else ""), case,
-                             key=f"implied_volatility:{which}{sfx}", detail={"i": i, "iv": float(iv[i]), "sigma": sigs[i], "precision": prec})
+                             key=f"implied_volatility:{label}{sfx}", detail={"i": i, "log_moneyness": ss[i], "iv": float(iv[i]), "sigma": sigs[i], "precision": prec})
     # ---------------- find_implied_volatility with user pricers that are monotone in volatility in either direction
     from pfhedge._utils.bisect import find_implied_volatility
     for _ in range(120 if ctx.tier == "quick" else 1200):
@@ -772,17 +808,23 @@ def check(ctx):
             lo, hi = torch.where(below, mid, lo), torch.where(below, hi, mid)
         return (lo + hi) / 2
 
+    # (the "+atm" batches -- elements exactly at the money next to elements off the money, see above -- take part here too: corpus entries with a
+    # precision the dtype can resolve, where a value must come back, and with one it cannot)
     iv_res_corpus = [(w_, "float32", 1e-10, "direct") for w_ in IV_KINDS] + [(w_, "float64", 1e-17, "direct") for w_ in ("european", "binary_itm", "lookback")] + \
-                    [(w_, "float32", pr_, "from_derivative") for w_, pr_ in (("european", 1e-10), ("lookback", 0.0), ("american_binary", 1e-9), ("european_put", 1e-12))]
+                    [(w_, "float32", pr_, "from_derivative") for w_, pr_ in (("european", 1e-10), ("lookback", 0.0), ("american_binary", 1e-9), ("european_put", 1e-12))] + \
+                    [(w_, dtn_, pr_, "direct") for w_ in MIXED_ATM for dtn_, pr_ in (("float32", 1e-5), ("float64", 1e-9))] + \
+                    [("binary_itm+atm", "float32", 1e-10, "direct"), ("binary_put_otm+atm", "float64", 1e-17, "direct")]
     for it_ in range(len(iv_res_corpus) + (70 if ctx.tier == "quick" else 900)):
-        which = g.choice(IV_KINDS)
+        which = g.choice(IV_KINDS + list(MIXED_ATM))
         dtn = g.choice(["float32", "float32", "float64"])
         prec = g.choice(IV_BELOW[dtn]) if g.chance(0.8) else g.choice(IV_REACH[dtn])
         source = g.weighted([("direct", 4), ("from_derivative", 1)])
         corpus = it_ < len(iv_res_corpus)
         if corpus:
             which, dtn, prec, source = iv_res_corpus[it_]
-        if source == "from_derivative" and which not in IV_CLASSES:
+        label = which                                # the input class (tags, failure keys); `which` = the module kind
+        which = MIXED_ATM.get(label, label)
+        if source == "from_derivative" and (which not in IV_CLASSES or label in MIXED_ATM):
             source = "direct"
         dt = getattr(torch, dtn)
         mant = MANT[dtn]
@@ -794,6 +836,10 @@ def check(ctx):
         ref = cls(**ckw)
         if source == "direct":
             n_ = 3 if corpus else g.small((1, 2, 3, 5))
+            roles = {}
+            if label in MIXED_ATM:
+                n_ = max(n_, 2)
+                roles = atm_roles(g, label, n_)
             ss, ts, ms, sigs = [], [], [], []
             for i_ in range(n_):
                 t = g.choice([0.1, 0.5, 1.0, 2.0])
@@ -810,6 +856,10 @@ def check(ctx):
                 if corpus:
                     s = 0.0 if which == "binary_atm" else [0.05, 0.1, 0.08][i_] * (-1 if which in ("european", "lookback", "binary", "american_binary", "binary_put_itm") else 1)
                     t = -s if which in ("binary", "binary_put_itm") else [0.5, 1.0, 0.25][i_]
+                    if label in MIXED_ATM:          # at the money, and 0.1 / 0.08 off the money on the side(s) of the kind
+                        s = [0.0, 0.1, -0.08 if label in ("european+atm", "european_put+atm", "lookback+atm") else 0.08][i_] * (-1 if which == "american_binary" else 1)
+                else:
+                    s = atm_value(g, roles.get(i_), s)
                 ss.append(s)
                 ts.append(t)
                 ms.append(s if which == "american_binary" else max(s, 0.0) + g.choice([0.0, 0.1]))
@@ -819,7 +869,7 @@ def check(ctx):
             state = (S, torch.tensor(ms, dtype=dt), T_) if which in ("lookback", "american_binary") else (S, T_)
             P = ref.price(*state, V).detach()
             args = state + (P,)
-            case = {"which": which, "dtype": dtn, "s": S.tolist(), "t": T_.tolist(), "sigma": V.tolist(), "k": k, "precision": prec, "built": "direct"}
+            case = {"which": label, "dtype": dtn, "s": S.tolist(), "t": T_.tolist(), "sigma": V.tolist(), "k": k, "precision": prec, "built": "direct"}
             if len(state) == 3:
                 case["max_log_moneyness"] = state[1].tolist()
         else:
@@ -866,7 +916,7 @@ def check(ctx):
         unreachable = bool(stuck.any())
         reachable = preq >= 2.0 ** -mant * 2               # not below the spacing of the floats anywhere in [0.001, 1]; at most 60 halvings
         ctx.stats[f"iv_resolution:{dtn}:{'certainly-unreachable' if unreachable else ('reachable' if reachable else 'undecided')}:{st if st == 'ok' else iv}"] += 1
-        kp = f"implied_volatility:{which}:{dtn}"
+        kp = f"implied_volatility:{label}:{dtn}"
         if st != "ok":
             if iv == "other:BudgetExceeded":
                 ctx.fail("implied_volatility keeps evaluating the price far beyond the 100 steps of find_implied_volatility instead of stopping with an error", case,
@@ -926,6 +976,8 @@ def check(ctx):
             dec = form == "bs_binary_itm"
             mod = BSEuropeanBinaryOption() if dec else BSEuropeanOption(call=g.chance(0.5), strike=g.choice([1.0, 2.0]))
             ss_ = [g.r.uniform(0.02, 0.3) if dec else g.r.uniform(-0.2, 0.2) for _ in range(n_)]
+            if n_ >= 2 and g.chance(0.4):          # an element exactly at the money in the batch (the binary call falls with the volatility there as well)
+                ss_[g.randint(0, n_ - 1)] = 0.0
             ts_ = [g.choice([0.25, 0.5, 1.0]) for _ in range(n_)]
             S, T_ = torch.tensor(ss_, dtype=dt), torch.tensor(ts_, dtype=dt)
 
@@ -1089,5 +1141,6 @@ def check(ctx):
              "{0,5,30}, every function / pricer counted (no more evaluations than max_iter allows); the modules' implied_volatility (all kinds, calls / puts, "
              "increasing / decreasing, direct and from a simulated derivative) on float32 / float64 data with precisions 1e-8..1e-12 / 1e-16..1e-18 / 0: "
              "RuntimeError or really within precision (oracle: float64 module, crossing certified by a margin, spacing of the floats near sigma); "
-             "find_implied_volatility with the caller's max_iter in {0..1000} on user pricers and module prices; "
+             "find_implied_volatility with the caller's max_iter in {0..1000} on user pricers and module prices; batches with elements exactly at the money next to "
+             "elements off the money for every module kind (European binary: at + above the strike, calls and puts), fixed corpus + random; "
              "non-trivial = valid bracket; distinct = sha1 of canonical case")
